@@ -1,0 +1,78 @@
+//! Observation hooks for external runtime monitors (cargo feature `verif_hooks`,
+//! off by default). Nothing in here changes the behaviour of the library:
+//! `point()` calls a handler installed by the monitor (if any) at fixed places
+//! of the parallel pipeline, and `Snapshot` is a read-only copy of the reader
+//! bookkeeping.
+
+use std::sync::atomic::{AtomicPtr, Ordering};
+
+/// Places in `parallel.rs` at which the handler is invoked. All of them lie
+/// *between* blocking operations, never inside a critical section.
+#[derive(Debug, Clone, Copy, PartialEq, Eq, Hash)]
+#[repr(u8)]
+pub enum Point {
+    // reader thread
+    ReaderInitDone = 0,
+    ReaderGotEmpty,
+    ReaderFilled,
+    ReaderBeforeExecute,
+    ReaderErrBeforeSend,
+    ReaderBeforeJoin,
+    ReaderBeforeSendNone,
+    // worker job
+    WorkerWorkDone,
+    WorkerSent,
+    // calling thread
+    MainSpawned,
+    MainSentEmpty,
+    MainBeforeFunc,
+    MainDroppedRsets,
+    // consumer (`ParallelRecordsets::next`)
+    ConsumerRecv,
+    ConsumerRecycled,
+}
+
+pub const N_POINTS: usize = 15;
+
+static HANDLER: AtomicPtr<()> = AtomicPtr::new(std::ptr::null_mut());
+
+/// Installs (or removes) the handler called at every `Point`.
+pub fn set_handler(handler: Option<fn(Point)>) {
+    let p = match handler {
+        Some(f) => f as *mut (),
+        None => std::ptr::null_mut(),
+    };
+    HANDLER.store(p, Ordering::SeqCst);
+}
+
+#[inline]
+pub(crate) fn point(p: Point) {
+    let h = HANDLER.load(Ordering::Acquire);
+    if !h.is_null() {
+        let f: fn(Point) = unsafe { std::mem::transmute::<*mut (), fn(Point)>(h) };
+        f(p);
+    }
+}
+
+/// Read-only copy of the bookkeeping of a FASTA or FASTQ reader
+#[derive(Debug, Clone, PartialEq, Eq)]
+pub struct Snapshot {
+    /// name of the reader state
+    pub state: &'static str,
+    /// number of bytes currently in the buffer
+    pub buf_len: usize,
+    /// capacity of the buffer
+    pub capacity: usize,
+    /// offset of the current record start in the buffer
+    pub rec_start: usize,
+    /// further offsets stored for the current record
+    /// (FASTA: line ends; FASTQ: seq, sep, qual, end)
+    pub offsets: Vec<usize>,
+    /// FASTA: offset at which the search continues
+    pub search_pos: Option<usize>,
+    /// FASTQ: part of the record in which the search was interrupted
+    pub incomplete: Option<&'static str>,
+    /// stored file coordinates
+    pub pos_line: u64,
+    pub pos_byte: u64,
+}
